@@ -422,6 +422,9 @@ def coarse(aspects):
     return "accepted but not readable back"
 
 
+SEP_SIG = "keyenc identifiers containing the separator byte 0x00 are accepted (aliased, truncated or unreadable keys)"
+
+
 def run(ctx):
     quick = ctx.tier == "quick"
     tier = "quick" if quick else "thorough"
@@ -473,7 +476,7 @@ def run(ctx):
     def sig(h, what):
         # one signature per root cause where the cause is known from the construction of the history
         if "sep" in h.feat.split("+"):
-            return "keyenc identifiers containing the separator byte 0x00 are accepted (aliased, truncated or unreadable keys)"
+            return SEP_SIG
         if "invalid-utf8" in h.feat.split("+"):
             return "keyenc identifiers that are not valid UTF-8 are accepted but not stored"
         return "keyenc %s[%s]: %s" % (h.role.split("(")[0], h.feat, what)
@@ -487,7 +490,9 @@ def run(ctx):
             raise Inconclusive("a keyenc worker died without a Go panic")
         bad = next((b for b in ("crash", "hang") if o.get(b)), None)
         if bad:
-            ctx.diverge(sig(h, "%s %s" % (bad, o[bad])), "reading back after accepted writes made the store %s" % bad,
+            # the key parsers index out of range only when a component contains the separator byte
+            parse_crash = "KeyParse" in o[bad]
+            ctx.diverge(SEP_SIG if parse_crash else sig(h, "%s %s" % (bad, o[bad])), "reading back after accepted writes made the store %s" % bad,
                         dict(why=h.why, calls=h.describe(), site=o[bad], trace=(o.get("trace") or "")[:3000]))
             continue
         for c, r in zip(h.calls, o["results"]):
